@@ -192,6 +192,10 @@ def run_property(pid, items, bounded=(), tier='quick', seed=0, level='proof', tr
                  checker_cmd=None, explanation=''):
     t_start = time.time()
     rng = random.Random(seed)
+    if os.environ.get('PYVC_DEDUCTIVE_ONLY') == '1':
+        # experiment switch (never used by a registered command): obligations and runtime sweeps only, no bounded components, no evidence
+        bounded = ()
+        os.environ['PYVC_NO_EVIDENCE'] = '1'
     findings = [f for f in load_findings() if f.get('property') == pid]
     known = [f for f in findings if f.get('status') == 'known']
     violations = []        # (what, replay path, reproduced?)
